@@ -70,6 +70,7 @@ Internal(x) ==
     (IF DiscStepEnabled(x) THEN {DiscStep(x)} ELSE {}) \cup
     UNION {IF CallStepEnabled(x, id) THEN {CallStep(x, id)} ELSE {} : id \in UserCalls} \cup
     UNION {IF CallTimerFireEnabled(x, id) THEN {CallTimerFire(x, id)} ELSE {} : id \in CallIds} \cup
+    (IF HsTimerFireEnabled(x) THEN {HsTimerFire(x)} ELSE {}) \cup
     (IF x.cm THEN {ConnMade(x)} ELSE {}) \cup
     (IF x.lost # "none" THEN {ConnLost(x)} ELSE {}) \cup
     (IF Due(x, "ping") THEN {PingFire(x)} ELSE {}) \cup
@@ -94,6 +95,7 @@ Apply(x, e) ==
     [] e.c = "UserCall"       -> {UserCall(x, e.a.id, e.a.mode, e.a.key)}
     [] e.c = "CancelCall"     -> {CancelCall(x, e.a.id)}
     [] e.c = "UserSend"       -> {UserSend(x, e.a.n)}
+    [] e.c = "UserCancel"     -> {UserCancel(x, e.a.op)}
     [] e.c = "UserSub"        -> {UserSub(x, e.a.id, e.a.kind, e.a.script)}
     [] e.c = "UserUnsub"      -> {UserUnsub(x, e.a.id)}
     \* a library callback: some enabled internal action, or a relay hop that changes
